@@ -116,3 +116,20 @@ Section ParamsTie.
     intros E. inversion E; subst env. exists u. split; reflexivity.
   Qed.
 End ParamsTie.
+
+(* ---------- the form-copying wrappers and the wrapper dispatch of asm ---------- *)
+Require Import Model.C01_FormWrap.
+Theorem gen_form_wrappers_spec {F D P : Type} (d0 : D) (p0 : P) :
+  (forall bind (r : formrec F D P), let r' := gen_form_partial d0 p0 bind r in
+     fr_form r' = omap bind (fr_form r) /\ fr_dtype r' = fr_dtype r /\ fr_nthreads r' = fr_nthreads r /\ fr_params r' = fr_params r) /\
+  (forall bind (r : formrec F D P), let r' := gen_form_copy_block d0 p0 bind r in
+     fr_form r' = omap bind (fr_form r) /\ fr_dtype r' = fr_dtype r /\ fr_nthreads r' = fr_nthreads r /\ fr_params r' = fr_params r) /\
+  (forall (r : formrec F D P) f, let r' := gen_form_decorate d0 p0 r f in
+     fr_form r' = Some f /\ fr_dtype r' = fr_dtype r /\ fr_nthreads r' = fr_nthreads r /\ fr_params r' = fr_params r) /\
+  (forall (f : F) d n p, gen_form_init d0 p0 f d n p = mkFr (Some f) d n p) /\
+  (forall (fo : formrec F D P) d n p, gen_form_init_from d0 p0 fo d n p = mkFr (fr_form fo) d n p).
+Proof. repeat split; reflexivity. Qed.
+
+Theorem gen_asm_wrapper_spec :
+  gen_asm_wrapper 1 = WFunctional /\ gen_asm_wrapper 2 = WLinearForm /\ gen_asm_wrapper 3 = WBilinearForm /\ gen_asm_wrapper 4 = WTrilinearForm.
+Proof. repeat split; reflexivity. Qed.
